@@ -7,7 +7,7 @@ use pilota::thrift::{Message, TAsyncInputProtocol, TInputProtocol};
 use proptest::prelude::*;
 use serde::{Deserialize, Serialize};
 use serde_json::json;
-use vcore::evidence::{run_prop, Fail, PResult};
+use vcore::evidence::{catch, run_prop, Fail, PResult};
 use vcore::mutate::{apply, arb_fault, Fault};
 use vcore::refthrift::{Enc, MarkKind, Variant};
 use vcore::shrink::Shrink;
@@ -283,7 +283,7 @@ pub fn run(ctx: &Ctx) -> i32 {
     {
         let mut r = rec.borrow_mut();
         r.level = "fault_enumeration";
-        r.rule = "input = random bytes (<= 256, two distributions) or a reference encoding of a generated value / envelope with exactly one fault (truncation at a generated offset, single bit flip, a length/count/field-id mark overwritten with -1,0,1,rem-1,rem,rem+1,i32::MAX,u32::MAX,16Mi, or a type byte replaced); fed to the header-driven generic reader, skip, message envelope and TApplicationException decoders, sync and async, binary / binary-LE / compact; oracle: no panic, no single allocation or peak above 1 MiB + 4096 x input length, async poll count <= 16 x len + 64, strict prefixes of struct encodings rejected; non-trivial = single-fault mutant of a valid encoding (distinct by hash)".into();
+        r.rule = "input = random bytes (<= 256, two distributions) or a reference encoding of a generated value / envelope with exactly one fault (truncation at a generated offset, single bit flip, a length/count/field-id mark overwritten with -1,0,1,rem-1,rem,rem+1,i32::MAX,u32::MAX,16Mi, or a type byte replaced); fed to the header-driven generic reader, skip, message envelope and TApplicationException decoders, sync and async, binary / binary-LE / compact; oracle: no panic, no single allocation or peak above 1 MiB + 4096 x input length, async poll count <= 16 x len + 64, strict prefixes of struct encodings rejected (also enumerated for the TApplicationException decoder: every prefix of the standard struct in four layouts x 3 protocols, sync and async); non-trivial = single-fault mutant of a valid encoding (distinct by hash)".into();
         r.assumptions = vec![
             "allocation is observed with a counting global allocator on the checking thread".into(),
             "generated-type decoders are covered by the generated-code pipeline part".into(),
@@ -408,6 +408,60 @@ pub fn run(ctx: &Ctx) -> i32 {
                 let f = Fail::new("deep-nesting-crash", format!("the child process skipping deeply nested input died: status {:?}\nstdout {}\nstderr {}", o.status, vcore::evidence::truncate(&so, 600), vcore::evidence::truncate(&String::from_utf8_lossy(&o.stderr), 600)));
                 if !ctx.findings.is_open("C09", &f.key) {
                     report(ctx, &rec, "deep", &json!({"probe": "deep"}), &f);
+                }
+            }
+        }
+    }
+    // the hand-written TApplicationException decoder: every strict prefix of the standard struct
+    // (message and type in either order, with and without a foreign field) is refused, sync and
+    // async, under every protocol
+    if rec.borrow().violations.is_empty() {
+        let mut reported = std::collections::BTreeSet::new();
+        for (mi, msg) in ["", "x", "boom: something failed"].iter().enumerate() {
+            for kind_first in [false, true] {
+                for extra in [false, true] {
+                    let mut fields = vec![(1i16, TVal::Binary(msg.as_bytes().to_vec())), (2i16, TVal::I32(6 + mi as i32))];
+                    if kind_first {
+                        fields.swap(0, 1);
+                    }
+                    if extra {
+                        fields.push((9, TVal::List(vcore::tval::TT::I16, vec![TVal::I16(1), TVal::I16(2)])));
+                    }
+                    let sv = TVal::Struct(fields);
+                    for pk in [PKind::Binary, PKind::BinaryLe, PKind::Compact] {
+                        let data = vcore::refthrift::encode(pk.ref_proto(), &sv);
+                        for cut in 0..data.len() {
+                            let prefix = data[..cut].to_vec();
+                            {
+                                let mut r = rec.borrow_mut();
+                                r.case(fp(&("appex-prefix", mi, kind_first, extra, format!("{:?}", pk), cut)), true, || json!(format!("{:?}: {} of {} bytes of {:?}", pk, cut, data.len(), sv)));
+                                r.class("application exception prefix");
+                            }
+                            let p2 = prefix.clone();
+                            let sync_ok = catch(move || {
+                                let mut b = Bytes::from(p2);
+                                with_reader!(pk, &mut b, |p| pilota::thrift::ApplicationException::decode(&mut p).is_ok())
+                            });
+                            let p3 = prefix.clone();
+                            let budget = 16 * prefix.len() + 64;
+                            let async_ok = catch(move || {
+                                let (reader, _stats) = ScriptedReader::new(p3, vec![Step::Chunk(3), Step::Pending, Step::Chunk(2)]);
+                                with_async_reader!(pk, reader, |p| block_on(async { pilota::thrift::ApplicationException::decode_async(&mut p).await.is_ok() }, budget))
+                            });
+                            let verdict = match (sync_ok, async_ok) {
+                                (Err(p), _) | (_, Err(p)) => Some(Fail::new(&format!("appex-prefix-panic-{:?}", pk), format!("{:?}: decoding a prefix of a TApplicationException panicked: {}", pk, p))),
+                                (Ok(true), _) => Some(Fail::new(&format!("appex-prefix-accepted-{:?}", pk), format!("{:?}: the first {} of {} bytes of the TApplicationException {:?} were accepted as a complete exception (in memory)", pk, cut, data.len(), sv))),
+                                (_, Ok(Ok(true))) => Some(Fail::new(&format!("appex-prefix-accepted-async-{:?}", pk), format!("{:?}: the first {} of {} bytes of the TApplicationException {:?} were accepted as a complete exception (async)", pk, cut, data.len(), sv))),
+                                (_, Ok(Err(_))) => Some(Fail::new(&format!("hang:async-{:?}-appex-prefix", pk), format!("{:?}: async decode of a {}-byte prefix did not finish within {} polls", pk, cut, budget))),
+                                _ => None,
+                            };
+                            if let Some(f) = verdict {
+                                if reported.insert(f.key.clone()) && !ctx.findings.is_open("C09", &f.key) {
+                                    report(ctx, &rec, "appex-prefix", &json!({"pk": format!("{:?}", pk), "hex": vcore::tval::hex(&prefix)}), &f);
+                                }
+                            }
+                        }
+                    }
                 }
             }
         }
